@@ -208,8 +208,32 @@ func drawCase(t *rapid.T, maxRecipe int) *Case {
 		opts = append(opts, "lrucache=true", fmt.Sprintf("lrucachesize=%d", rapid.SampledFrom([]int{0, 1024, 10 << 20}).Draw(t, "lrusize")))
 	}
 	c.DSNOpts = strings.Join(opts, "&")
+	// whitespace twins: values that differ only in the whitespace inside them,
+	// queried one after the other on the same handle (a statement or parse
+	// cache that normalises query text confuses them)
+	twins := []string{"new york", "new  york", "new\tyork", " new york", "new york "}
+	twinCol := ""
+	if c.Data.Recipe == nil && rapid.IntRange(0, 2).Draw(t, "twins") == 0 {
+		twinCol = rapid.SampledFrom([]string{"a", "b", "city"}).Draw(t, "twincol")
+		for i, v := range twins {
+			for k := 0; k <= i; k++ {
+				c.Data.Explicit = append(c.Data.Explicit, model.Row{twinCol: v, "a": "1"})
+			}
+		}
+		c.Data = gen.DataSpec{Explicit: c.Data.Explicit}
+	}
 	d := model.NewData(c.Data.Rows())
 	pool := gen.NewLeafPool(d)
+	if twinCol != "" {
+		order := rapid.Permutation(twins).Draw(t, "twinorder")
+		for _, v := range order {
+			q := Q{Prepare: rapid.Bool().Draw(t, "twinprep"), Tree: qref.T{Op: model.OpAnd, Subs: []qref.T{{Op: model.OpEq, Col: twinCol, Val: v}, {Op: model.OpEq, Col: "a", PH: 1}}}, Args: []string{"1"}}
+			if rapid.Bool().Draw(t, "twingb") {
+				q.GroupBy = []string{twinCol}
+			}
+			c.Queries = append(c.Queries, q)
+		}
+	}
 	n := rapid.IntRange(1, 10).Draw(t, "nq")
 	for i := 0; i < n; i++ {
 		var e model.Expr
